@@ -31,6 +31,16 @@ R6 (added) an unrecovered failure fails the workflow: every call site of `Failur
    `<v> = Status.FAILED` with `<v>` the value of every later return and not re-assigned afterwards.  When
    the exception can leave a helper, its awaiting callers inherit the obligation (2 levels).  What happens
    to the recorded status afterwards (reduction, executor raise) is C04.R4-R6.
+R7 (added, seeded change C17b-1) the recovery graphs are queried with the kind of key they are filled with: for every
+   attribute holding a `recovery.utils.DirectedGraph` (class table: `dag_tokens`, `dcg_ports`) every call of a graph
+   method on it (whole program; receiver aliases followed) is enumerated; the arguments bound to node parameters
+   (those annotated with the class's type variable) are typed by a small annotation-driven inference
+   (`_util_D.value_kind`: parameter / attribute / return annotations through locals, loop targets, subscripts and
+   container methods).  The key kind of a graph is the one its fill sites (`add`, `replace(new_node)`: the parameters
+   handed to `_add_node`) use; a node argument of another known kind (a Token object, a job name) is reported.
+   Nec.: `mapper.dag_tokens.contains(job_token)` is always False on a graph keyed by persistent ids, so the outputs
+   of a job that another recovery already re-executes are not handed over and the job is executed again without
+   passing the counter of R1.  Arguments whose kind cannot be inferred are not reported (recorded as trivial).
 
 Atoms of the guards of `_update_request` outside the (version, max_retries) vocabulary (a flag parameter, a
 comparison of job names, a call) are not an analysis error: they range over both truth values - a parameter
@@ -74,6 +84,8 @@ from ._util_D import (
     STATUS,
     STEP_FILE,
     Uninterpretable,
+    UTILS,
+    ann_kind,
     attr_writes,
     bind_args,
     branch_edges,
@@ -94,6 +106,8 @@ from ._util_D import (
     stage_calls,
     strip,
     succ,
+    value_kind,
+    kind_text,
 )
 
 META = {
@@ -103,7 +117,8 @@ META = {
         "must-pass-through / dominance for the counting of every recovery and the propagation of the exhaustion; "
         "fold of `is_recovering` over the Status enum; exit analysis of every FailureManager.recover; exception-edge "
         "reachability from every call of FailureManager.recover and of every @recoverable phase to the caller's normal "
-        "exit (must pass a recorded Status.FAILED). Guard atoms that are neither the counter nor the limit are enumerated "
+        "exit (must pass a recorded Status.FAILED); annotation-driven key-kind agreement between the fill sites and the "
+        "query sites of the recovery graphs (R7). Guard atoms that are neither the counter nor the limit are enumerated "
         "over both truth values (parameters: over the constants bound by their call sites). Decides that "
         "each recovery attempt of a job passes the guarded counter exactly once and that exhaustion raises an "
         "unrecoverable exception; it does not count executions."
@@ -598,9 +613,105 @@ def _anc(node):
 
     return list(ancestors(node))
 
+# --------------------------------------------------------------------------- R7
 
-RULES = [("R1", r1), ("R2", r2), ("R3", r3), ("R4", r4), ("R5", r5), ("R6", r6)]
-FLOORS = {"R1": 10, "R2": 6, "R3": 3, "R4": 2, "R5": 14, "R6": 6}
+GRAPH = f"{UTILS}.DirectedGraph"
+
+
+def _graph_api(p):
+    """(graph classes, {method: {parameter: 'one' | 'many'}} for the parameters that denote nodes (annotated with the
+    class's type variable / a collection of it), {method: parameters that are inserted as new nodes})."""
+    gclasses = [GRAPH, *[c for c in p.subclasses(GRAPH) if c != GRAPH]]
+    node_params: dict[str, dict[str, str]] = {}
+    fills: dict[str, set[str]] = {}
+    for cq in gclasses:
+        for name, m in p.cls(cq).methods.items():
+            if name.startswith("_"):
+                continue
+            for prm in m.params[1:]:
+                k = ann_kind(p, m.module, m.param_annotation(prm))
+                if k == "T":
+                    node_params.setdefault(name, {})[prm] = "one"
+                elif k == ("coll", "T"):
+                    node_params.setdefault(name, {})[prm] = "many"
+            for c in m.calls():
+                if isinstance(c.func, ast.Attribute) and c.func.attr == "_add_node" and isinstance(c.func.value, ast.Name) and c.func.value.id == "self":
+                    for a in c.args:
+                        if isinstance(a, ast.Name) and a.id in node_params.get(name, {}):
+                            fills.setdefault(name, set()).add(a.id)
+    return gclasses, node_params, fills
+
+
+def r7(ctx):
+    """The recovery graphs are queried with the kind of key they are filled with."""
+    p = ctx.prog
+    p.cls(GRAPH)
+    gclasses, node_params, fills = _graph_api(p)
+    ctx.require(bool(fills) and "contains" in node_params and "successors" in node_params, "C17.R7: the node API of DirectedGraph (add / contains / successors) was not found")
+    # attributes that hold such a graph
+    attrs: set[str] = set()
+    for f in funcs_mentioning(p, *[c.rpartition(".")[2] for c in gclasses]):
+        for n in f.body_nodes():
+            if isinstance(n, ast.AnnAssign) and isinstance(n.target, ast.Attribute) and p.ann_to_class(f.module, n.annotation) in gclasses:
+                attrs.add(n.target.attr)
+            elif isinstance(n, ast.Assign) and isinstance(n.value, ast.Call) and any(q in gclasses for q in p.resolve_call(f, n.value, fanout=False)):
+                attrs.update(t.attr for t in n.targets if isinstance(t, ast.Attribute))
+    ctx.require(bool(attrs), "C17.R7: no attribute holds a DirectedGraph")
+    sites: dict[str, list] = {}
+    for f in funcs_mentioning(p, *sorted(attrs)):
+        if f.cls is not None and f.cls.qualname in gclasses:
+            continue
+        for c in f.calls():
+            if not (isinstance(c.func, ast.Attribute) and c.func.attr in node_params):
+                continue
+            recvs = [strip(o) for o in origins(f, c.func.value)]
+            if not (len(recvs) == 1 and isinstance(recvs[0], ast.Attribute) and recvs[0].attr in attrs):
+                continue
+            t = p.type_of(f, recvs[0])
+            if t is not None and t not in gclasses:
+                continue
+            meth = next((p.cls(cq).methods[c.func.attr] for cq in ([t] if t else []) + gclasses if c.func.attr in p.cls(cq).methods), None)
+            if meth is None:
+                continue
+            b = bind_args(meth.node, c)
+            if b is None:
+                continue
+            for prm, card in node_params[c.func.attr].items():
+                a = b.get(prm)
+                if a is None:
+                    continue
+                k = value_kind(p, f, a)
+                if card == "many" and isinstance(k, tuple) and k[0] == "coll":
+                    k = k[1]
+                elif card == "many":
+                    k = None
+                sites.setdefault(recvs[0].attr, []).append((f, c, prm, a, k, prm in fills.get(c.func.attr, ())))
+    ctx.require(any(fill for ss in sites.values() for *_x, fill in ss), "C17.R7: no call fills a recovery graph")
+    for attr, ss in sorted(sites.items()):
+        concrete = lambda k: k not in (None, "T", "none")  # noqa: E731
+        fk = {}
+        for f, c, prm, a, k, fill in ss:
+            if fill and concrete(k):
+                fk.setdefault(k, (f, c))
+        for f, c, prm, a, k, fill in ss:
+            what = f"`{attr}`: node arguments have the kind of key the graph is filled with"
+            if not concrete(k) or not fk:
+                ctx.ob("R7", what + " (kind of the argument unknown)", True, func=f, node=c, trivial=True)
+                continue
+            # the key kind of the graph: the one most of its fill sites use (a single deviating site is the one reported)
+            votes = {k2: sum(1 for *_y, k3, fl in ss if fl and k3 == k2) for k2 in fk}
+            expected = max(fk, key=lambda k2: votes[k2])
+            ok = k == expected
+            other = (expected, fk[expected])
+            ctx.ob("R7", what, ok, func=f, node=c, instance=f"graph-key:{attr}:{c.func.attr}:{unparse(a)}",
+                   message=f"`{unparse(c)[:100]}` in {f.qualname} passes {kind_text(k)} (`{unparse(a)}`) as node of the `{attr}` graph, which is keyed by "
+                   f"{kind_text(other[0])} (`{unparse(other[1][1])[:80]}` in {other[1][0].qualname}): the look-up can never match - contains() is always False, "
+                   "successors() / predecessors() raise KeyError - so the outputs of a job that another recovery already re-executes are not handed over and the "
+                   "job is executed again by this recovery without passing the retry counter")
+
+
+RULES = [("R1", r1), ("R2", r2), ("R3", r3), ("R4", r4), ("R5", r5), ("R6", r6), ("R7", r7)]
+FLOORS = {"R1": 10, "R2": 6, "R3": 3, "R4": 2, "R5": 14, "R6": 6, "R7": 8}
 
 _UPD = f"{RFM}._update_request"
 STEPM = "streamflow.workflow.step"
@@ -682,7 +793,26 @@ VARIANTS = [
                   logger.exception(e)
               await self.terminate(Status.COMPLETED)
       """),
+    # -- R7: the recovery graphs are queried with the kind of key they are filled with (seeded change C17b-1)
+    V("graph membership tested with the JobToken object instead of its id (seeded)", FM_FILE, _SYNC, "if mapper.dag_tokens.contains(job_token.persistent_id) else []",
+      "if mapper.dag_tokens.contains(job_token) else []", "R7"),
+    V("successors looked up with the JobToken object through a local", FM_FILE, _SYNC,
+      "            for token_id in mapper.dag_tokens.successors(job_token.persistent_id) if",
+      "            node = job_token\n            for token_id in mapper.dag_tokens.successors(node) if", "R7"),
+    V("graph membership tested with the job name", FM_FILE, _SYNC, "if mapper.dag_tokens.contains(job_token.persistent_id) else []",
+      "if mapper.dag_tokens.contains(job_name) else []", "R7"),
+    V("provenance graph filled with Token objects", "streamflow/recovery/utils.py", f"{UTILS}.ProvenanceGraph.add",
+      "self.dag_tokens.add(src_token.persistent_id, dst_token.persistent_id if dst_token is not None else None)",
+      "self.dag_tokens.add(src_token, dst_token)", "R7"),
+    V("token promoted to root by its instance", "streamflow/recovery/utils.py", f"{UTILS}.GraphMapper.move_token_to_root",
+      "self.dag_tokens.promote_to_source(token_id)", "self.dag_tokens.promote_to_source(self.token_instances[token_id])", "R7"),
     # benign
+    V("job token id through a temporary, graph through an alias", FM_FILE, _SYNC,
+      "            for token_id in mapper.dag_tokens.successors(job_token.persistent_id) if mapper.dag_tokens.contains(job_token.persistent_id) else []:",
+      "            graph = mapper.dag_tokens\n            jid = job_token.persistent_id\n            for token_id in graph.successors(jid) if graph.contains(jid) else []:", None),
+    V("successors guarded by an if statement", FM_FILE, _SYNC,
+      "            for token_id in mapper.dag_tokens.successors(job_token.persistent_id) if mapper.dag_tokens.contains(job_token.persistent_id) else []:",
+      "            shared = set()\n            if mapper.dag_tokens.contains(job_token.persistent_id):\n                shared = mapper.dag_tokens.successors(job_token.persistent_id)\n            for token_id in shared:", None),
     V("flag parameter that every caller leaves at its checking default", FM_FILE, _UPD,
       "async def _update_request(self, job_name: str) -> None:\n    retry_request = self._retry_requests[job_name]\n    if self.max_retries is None or",
       "async def _update_request(self, job_name: str, check_limit: bool=True) -> None:\n    retry_request = self._retry_requests[job_name]\n    if not check_limit or self.max_retries is None or", None),
